@@ -299,6 +299,8 @@ def check(prop, tier, seed):
     good = []
     with ThreadPoolExecutor(max_workers=NCPU) as ex:
         res = list(ex.map(lambda i: reference(ctx, i), range(len(cands))))
+    if os.environ.get("VERIF_WARM"):
+        return 0  # setup.sh: the reference generations above have compiled what every later step shares
     dropped = 0
     for i, (ref, out) in enumerate(res):
         if ref is not None and len(good) < n_specs:
